@@ -48,6 +48,8 @@ func c06Ops(nkeys int) []c06op {
 	for k := 0; k < nkeys; k++ {
 		ops = append(ops, c06op{name: fmt.Sprintf("Rec(k%d)", k), kind: 'r', key: k, keys: []int{k}})
 	}
+	// a record the aggregation process cannot take in (its template lacks flowStartSeconds and httpVals)
+	ops = append(ops, c06op{name: "RecBad(k0)", kind: 'b', key: 0, keys: []int{0}})
 	// one message carrying records of several flows
 	if nkeys == 2 {
 		ops = append(ops, c06op{name: "Msg(k0,k1)", kind: 'r', keys: []int{0, 1}}, c06op{name: "Msg(k1,k0)", kind: 'r', keys: []int{1, 0}})
@@ -161,6 +163,34 @@ func (s *c06sys) Apply(opi int) (v *xplore.Violation) {
 			} else {
 				s.model[k] = &c06flow{act: now.Add(s.A), inact: now.Add(s.I)}
 			}
+		}
+	case 'b':
+		k := op.key
+		rec := aggfix.Record(aggfix.Spec{Key: k, FlowType: 1, From: aggfix.Both, Start: 1000, End: 1000 + s.count[k] + 1,
+			PktTot: uint64(s.count[k]+1) * 10, PktDelta: 10, OctTot: uint64(s.count[k]+1) * 1000, OctDelta: 1000, TCPState: "ESTABLISHED", OmitHTTPVals: true, OmitStart: true})
+		err := s.ap.AggregateMsgByFlowKey(aggfix.Msg(rec))
+		// the statement does not say what a refused record does to the deadlines of a flow that exists, nor
+		// that it must be refused: the model follows the implementation there. What it does say is checked
+		// below as for every operation: held <=> scheduled, deadlines in the future of their setting.
+		snap := s.ap.VerifSnapshot()
+		heapOf, sv := s.structural(snap)
+		if sv != nil {
+			sv.Detail = fmt.Sprintf("after %s (ingest returned %v): %s", op.name, err, sv.Detail)
+			return sv
+		}
+		h, held := heapOf[k]
+		f, known := s.model[k]
+		switch {
+		case held && !known:
+			s.count[k]++
+			s.model[k] = &c06flow{act: now.Add(s.A), inact: now.Add(s.I)}
+		case held && known:
+			if h.inact.Equal(now.Add(s.I)) {
+				f.inact = now.Add(s.I)
+				s.count[k]++
+			}
+		case !held && known:
+			return xplore.V("flow-lost", "%s: the flow was held before a record that was refused (%v) and is gone after it", op.name, err)
 		}
 	case 's':
 		var fired []int
@@ -425,7 +455,7 @@ func runC06(tier, replay string) int {
 	ev.Coverage = common.Coverage{
 		"states": tot.States, "transitions": tot.Trans, "traces_validated_against_impl": tot.Traces, "samples": tot.Samples,
 		"evaluations": tot.Traces, "distinct_nontrivial": tot.Interesting,
-		"rule":       "pass (a): every history over {Rec(k), one message carrying records of several flows, Adv(1|2|4|6), Scan(fail set F) for every F subset of keys} up to hist_depth on a fresh AggregationProcess under the virtual clock (exact time, so deadline == now is reached), checked after every op against the expiry model and the map/heap snapshot; pass (b): BFS de-duplicated on (heap array with deadlines relative to now, overdue ones abstracted to dense ranks) until closure. distinct_nontrivial = distinct reachable states holding at least one overdue flow",
+		"rule":       "pass (a): every history over {Rec(k), RecBad(k0) (a record that cannot be set up for aggregation), one message carrying records of several flows, Adv(1|2|4|6), Scan(fail set F) for every F subset of keys} up to hist_depth on a fresh AggregationProcess under the virtual clock (exact time, so deadline == now is reached), checked after every op against the expiry model and the map/heap snapshot; pass (b): BFS de-duplicated on (heap array with deadlines relative to now, overdue ones abstracted to dense ranks) until closure. distinct_nontrivial = distinct reachable states holding at least one overdue flow",
 		"exhaustive": tot.Exhaustive && tot.ClosedAll, "closed": tot.ClosedAll, "per_config": tot.PerCfg,
 	}
 	ev.Assumptions = []string{"a deadline exactly equal to the scan time may or may not fire, and an inactive deadline equal to the scan time may or may not remove (the statement says 'has passed')", "a callback that returns an error has exported nothing: the flow keeps its deadlines and is offered again by the next scan"}
